@@ -52,6 +52,12 @@ static std::vector<Spec> histCircuits() {
     s.cells = {cell(2, 2, 0, 0), cell(2, 2, 0, 0), cell(2, 2, 0, 0), cell(5, 2, 3, 3), cell(3, 3, 1, 4, true, false)};
     v.push_back(s);
   }
+  {  // a fully blocked band: several adjacent bins without any capacity, in x and in y
+    Spec s;
+    for (int i = 0; i < 6; ++i) s.rows.push_back(mkRow(0, 24, i, 2, i % 2 ? oFS : oN));
+    s.cells = {cell(3, 2, 9, 2), cell(2, 2, 12, 4), cell(2, 2, 15, 2), cell(2, 2, 0, 0), cell(4, 2, 20, 10), cell(14, 8, 6, 0, true, true)};
+    v.push_back(s);
+  }
   return v;
 }
 
@@ -83,7 +89,7 @@ static void enumerateAll(const std::function<void(const Spec &)> &f) {
   int nv = 0;
   for (auto &s : histCircuits()) {
     (void)nv;
-    for (int variant = 0; variant < (gThorough ? 12 : 6); ++variant) {
+    for (int variant = 0; variant < (gThorough ? 12 : 8); ++variant) {
       Spec t = s;
       t.aux = 1;
       t.aux2 = variant;
@@ -351,9 +357,9 @@ int main(int argc, char **argv) {
   c.rule =
       "(a) DensityGrid / HierarchicalDensityPlacement::fromIspdCircuit on the GP alphabet (1/9, thorough 1/2) and on every layout x fixed-shape menu entry (row heights 1,2,3; with "
       "and without a short fixed cell that changes the smallest cell height) x bin sizes {1,1.5,2.5,5} x side margins {0,0.5,0.9,2}: bins tile the area, every bin capacity equals the "
-      "area of (clipped free rows ∩ bin) computed independently, every coarser level aggregates exactly; (b) breadth-first search on the real DensityLegalizer (2 circuits: 6x3..12x6 "
+      "area of (clipped free rows ∩ bin) computed independently, every coarser level aggregates exactly; (b) breadth-first search on the real DensityLegalizer (3 circuits, one with a band of adjacent zero-capacity bins; 6x3..12x6 "
       "bins with an obstruction notch / ragged rows, 5-6 cells incl. zero-demand) over {refineX, refineY, coarsenX, coarsenY, refine, improve, run, improveXTransport, "
-      "improveYTransport, improveSquare, improveDiagonals, improveXY, 3 target updates (inside, coincident, outside)} x 6 (12) parameter variants (all cost models, reopt sizes), "
+      "improveYTransport, improveSquare, improveDiagonals, improveXY, 3 target updates (inside, coincident, outside)} x 8 (12) parameter variants (all cost models, reopt sizes 2 and 3), "
       "depth 4 (5); invariant in every state: capacity of the current view, each non-zero-demand cell in exactly one bin consistent with cellBinX/Y, zero-demand cells in none, "
       "spread/simple coordinates inside the bin";
   c.bounds = gThorough ? "depth 5, cap 40000 states per graph" : "depth 4, cap 12000 states per graph";
